@@ -9,10 +9,11 @@ S1 == Succ(Seed)
 Fwd == { <<Seed, R>> : R \in S1 }
 Bwd == { <<R, Seed>> : R \in { X \in S1 : Seed \in Succ(X) } }   \* only edits that are themselves admissible (populated tables)
 Two2 == IF Two THEN UNION { { <<Seed, R>> : R \in Succ(M) \ {Seed} } : M \in S1 } ELSE {}
-All == Fwd \cup Bwd \cup Two2
+Crs == { <<Seed, R>> : R \in Cross(Seed) }
+All == Fwd \cup Bwd \cup Two2 \cup Crs
 ASSUME WF(Seed)
 ASSUME \A p \in All : WF(p[1]) /\ WF(p[2])
 ASSUME \A p \in All : \A t \in Present(p[1]) \cap Present(p[2]) : \A c \in Rewritten(p[1], p[2], t) : p[2][t].cols[c].dflt # "none"
-ASSUME PrintT(<<"STATS", ToJson([succ |-> Cardinality(S1), all |-> Cardinality(All)])>>)
+ASSUME PrintT(<<"STATS", ToJson([succ |-> Cardinality(S1), cross |-> Cardinality(Crs), all |-> Cardinality(All)])>>)
 ASSUME ndJsonSerialize(OutFile, SetToSeq({ [from |-> p[1], to |-> p[2]] : p \in All }))
 ====
